@@ -40,6 +40,7 @@ APPEND = {
     "core/nike.rs": [
         "#[cfg(kani)] mod toy;",
         "#[cfg(kani)] pub use toy::Toy as ElGamal;",
+        "#[cfg(kani)] pub(crate) fn toy_p() -> u32 { toy::P }",
     ],
     "core/kem.rs": [
         "#[cfg(kani)] mod toy;",
